@@ -1,3 +1,4 @@
 -- Certificates on data regenerated from /repo.
 import XonshCerts.Basic
 import XonshCerts.Regex
+import XonshCerts.Dead
